@@ -56,6 +56,18 @@ class K:
         pass
 
 
+def _nowraps(f):
+    def wrapper(*a, **k):
+        return f(*a, **k)
+    return wrapper
+
+
+@_nowraps
+def rewrapped(a):
+    # traced as `rewrapped` before it was decorated: the name is bound to `_nowraps.<locals>.wrapper` now
+    return a
+
+
 def outer():
     def inner(z):
         return z
@@ -103,6 +115,7 @@ def rows_for(pkg):
         "s_func_now_value": (core, "NOT_FUNC", {"a": INT}, None, None),
         "s_func_now_class": (core, "K", {"a": INT}, None, None),
         "s_func_now_settable_property": (core, "K.settable", {"self": k}, INT, None),
+        "s_func_now_another_function": (core, "rewrapped", {"a": INT}, INT, None),
         "s_func_local_scope": (core, "outer.<locals>.inner", {"z": INT}, INT, None),
         "s_arg_class_removed": (core, "keep", {"a": J(core, "RemovedClass")}, INT, None),
         "s_return_module_removed": (core, "keep", {"a": INT}, J(pkg + ".gone_mod", "Thing"), None),
